@@ -24,7 +24,7 @@ func init() {
 			"(P17-stop-fallback) stop falls back to yesterday's record only without explicit date/time, second in the creator chain, and adds 24h only when the chosen record is yesterday's; " +
 			"(P17-close-table) CloseOpenRanges closes at the clock time for today's records, +1440 minutes for the day before, and fails otherwise or when EndOpenRange fails. " +
 			"Not covered: the rounding arithmetic of RoundToNearest, Time.Plus itself, the minute-by-minute outcome.",
-		rules: []ruleFn{ruleP17Err, ruleP17ErrAbort, ruleP17ClockFields, ruleP17CalendarDays, ruleP17ShiftTable, ruleP17AtDateTable, ruleP17StopFallback, ruleP02Close, ruleP17Rounding},
+		rules: []ruleFn{ruleP17Err, ruleP17ErrAbort, ruleP17ClockFields, ruleP17CalendarDays, ruleP17OneInstant, ruleP17ShiftTable, ruleP17AtDateTable, ruleP17StopFallback, ruleP02Close, ruleP17Rounding},
 		trusted: []string{
 			"klog.Time.Plus(d) shifts by d minutes or returns an error (C16)",
 			"kong fills flag fields according to their `name` struct tags",
